@@ -242,6 +242,11 @@ def check_sem_labels(run):
             else:
                 ok = lo <= line < hi
                 want = "text in lines %d..%d (%r)" % (lo + 1, hi, " / ".join(x.strip() for x in tl[lo:hi])[:80])
+                # the label covers the thing the message names
+                named = {"P0014": "NOT_A_VALUE", "P0022": "NoSuchType", "P0011": "no_such_task", "P0016": "k_noinit", "P0017": "k_fb"}.get(code)
+                if ok and named and named.lower() not in sl.lower():
+                    ok = False
+                    want = "%r (the label must cover it)" % named
             if not ok:
                 bad = "%s (%s): the label covers %r in line %d, the diagnostic is about %s" % (code, what, sl, line + 1, want)
             by_code[code] = by_code.get(code, 0) + 1
